@@ -43,7 +43,8 @@ RULE = ('Cases are JSON states in the library\'s units (t degC, p Pa, d kg/m3). 
         'value); distinct = distinct case JSON. Tolerances with their calibration (measured maxima on the unchanged tree): '
         'differential vs refs/if97_ref rel 1e-10 (measured <= 5e-13), temperatures 1e-8 K (measured <= 3.9e-11); Maxwell '
         'identity residual 1e-7 of |v|+T|dv/dT| (measured < 1e-9 over 1.0M states; the decade of every residual is a class label resid:*); inverses 1e-8 K / rel 1e-10 (measured 1.6e-10 K / 1e-12); '
-        'boundary consistency 0.05 % in v and 0.2 kJ/kg in h (IF97 requirement; measured 0.018 % and 0.134 kJ/kg).')
+        'boundary consistency 0.05 % in v and 0.2 kJ/kg in h (IF97 requirement; measured 0.018 % and 0.134 kJ/kg).'
+        ' Rounds 7-9: steam down to 1e-6 Pa; states at and 1e-13..1e-4 either side of the two saturation states where a leading coefficient of the saturation quadratics vanishes.')
 ASSUMPTIONS = [
     'refs/if97_ref.py is trusted after its self-test against the published IF97 tables 5, 15, 33, 35, 36, the B23 test '
     'value and the 2008 viscosity table (v, h, u, s, cp, w: the last three use the potential and second derivatives that '
